@@ -1,3 +1,101 @@
-(* Properties_C02.v — statements for C02; being filled in *)
-From Coq Require Import ZArith List.
-From PS Require Import Arith EvalModel BSpline.
+(* Properties_C02.v — C02: derivative and gradient evaluations are the true partial derivatives.
+   Statements only; proofs in C02_Basis.v (bspline_deriv_nonzero = de Boor's derivative formula, one dimension,
+   margins included), C02_Proofs.v (assembly) and C03_Proofs.v (gradient lanes).
+
+   "Partial derivative" is formalised as de Boor's derivative formula applied to the Cox–de Boor functions,
+       B'_{i,n} = n ( B_{i,n-1}/(t_{i+n}-t_i) - B_{i+1,n-1}/(t_{i+n+1}-t_{i+1}) )            (BSpline.dBfun),
+   with the same one-sided convention as plain evaluation. That this formula is d/dx of the piecewise polynomial
+   (de Boor, A Practical Guide to Splines, ch. X (8)) is the textbook identity and is NOT re-proved here; the check
+   cross-validates it numerically against exact rational difference quotients. Statements hold over every ordered field.
+
+   Not covered by a theorem (stated, tested, and partly a known finding): ndsplineeval_deriv with a derivative order >= 2,
+   which uses the recursive right-continuous bspline_deriv and therefore the RIGHT piece exactly on knots at or above the
+   upper end of full support (finding D3, C02:deriv>=2@x>=upper_full_support_knot). *)
+From Coq Require Import ZArith List Bool Lia QArith Qcanon.
+From PS Require Import Arith EvalModel BSpline C04_Proofs OFieldKit C01_Basis C01_Core C01_Proofs C02_Basis C02_Proofs C03_Proofs.
+Import ListNotations.
+Local Open Scope Z_scope.
+
+Section C02.
+Context {A : Arith}.
+Variable F : OField A.
+Variable t : @table A.
+Variable xs : list (T A).
+Variable cs : list Z.
+
+Hypothesis Hne  : dims t <> [].
+Hypothesis Hwf  : Forall (wf_dim (fun _ => True)) (dims t).
+Hypothesis Hrow : nth (ndim_of t - 1) (strides_of t) 0 = 1.
+Hypothesis Hlen : length xs = length (dims t).
+Hypothesis Hsc  : searchcenters t xs = CFound cs.
+Hypothesis Hreg : Forall2 eval_regular (dims t) xs.
+
+(* Every subset of dimensions flagged in the bitmask is differentiated once: the result is the tensor-product sum with the
+   derivative formula along the flagged dimensions (bits_of: bit d set <-> derivative order 1 along dimension d). *)
+Theorem C02_bitmask_is_derivative_sum : forall mask,
+  ndsplineeval t xs cs mask = spline_spec t xs (bits_of (ndim_of t) mask).
+Proof. intro mask. exact (eval_mask_is_tensor_sum F t xs cs mask Hne Hwf Hrow Hlen Hsc Hreg). Qed.
+
+(* the gradient evaluation: component 0 is the plain value, component j+1 the derivative along dimension j *)
+Theorem C02_gradient_components :
+  ndsplineeval_gradient t xs cs =
+  spline_spec t xs (bits_of (ndim_of t) 0) ::
+  map (fun j => spline_spec t xs (bits_of (ndim_of t) (2 ^ Z.of_nat j))) (seq 0 (ndim_of t)).
+Proof.
+  rewrite (gradient_lanes (fun _ => True) (OField_OrdLaws A F) t xs cs Hwf (proj2 (Forall_forall _ _) (fun _ _ => I)) Hlen Hsc).
+  rewrite C02_bitmask_is_derivative_sum. f_equal.
+  apply map_ext. intro j. apply C02_bitmask_is_derivative_sum.
+Qed.
+
+(* a derivative along a dimension of order 0 is identically zero *)
+Theorem C02_order0_derivative_zero : forall mask j, (j < ndim_of t)%nat ->
+  nth j (bits_of (ndim_of t) mask) O = 1%nat ->
+  d_order (nth j (dims t) (mkDim O 0 0 0 (fun _ => zero))) = O ->
+  ndsplineeval t xs cs mask = zero.
+Proof.
+  intros mask j Hj Hbit Ho. rewrite C02_bitmask_is_derivative_sum. unfold spline_spec.
+  apply (tensor_sum_order0 F). exists j. repeat split; try assumption.
+  clear. unfold ndim_of. generalize mask. induction (dims t) as [|d ds IH]; intro m; cbn [length bits_of]; [reflexivity|].
+  rewrite IH. reflexivity.
+Qed.
+End C02.
+
+(* which derivative orders a bitmask denotes *)
+Theorem C02_bits_of_spec : forall n mask d, 0 <= mask -> (d < n)%nat ->
+  nth d (bits_of n mask) O = if Z.testbit mask (Z.of_nat d) then 1%nat else O.
+Proof.
+  induction n as [|n IH]; intros mask d Hm Hd; [lia|].
+  cbn [bits_of]. destruct d as [|d].
+  - cbn [nth Z.of_nat]. rewrite Z.bit0_odd. reflexivity.
+  - cbn [nth]. rewrite IH by (try apply Z.div_pos; lia).
+    rewrite Z.div2_bits by lia. replace (Z.succ (Z.of_nat d)) with (Z.of_nat (S d)) by lia. reflexivity.
+Qed.
+
+(* One dimension: bspline_deriv_nonzero returns de Boor's derivative formula for the n+1 functions of the center interval *)
+Theorem C02_local_derivative_basis : forall (A : Arith) (F : OField A) (kn : Z -> T A) (nknots : Z),
+  (forall i j, 0 <= i -> i <= j -> j < nknots -> OFieldKit.le (kn i) (kn j)) ->
+  forall (n : nat) (x : T A) (side : bool) (c : Z),
+  2 * Z.of_nat n + 2 <= nknots ->
+  walk_post kn nknots n x side c (adjust_left kn nknots (Z.of_nat n) x c) ->
+  bspline_deriv_nonzero kn nknots n x c = map (fun i => dBfun kn side 1 n (c - Z.of_nat n + Z.of_nat i) x) (seq 0 (S n)).
+Proof. intros A F kn nknots Hm n x side c Hn W. exact (deriv_nonzero_dB F kn nknots Hm n x side c Hn W). Qed.
+
+(* non-vacuity on exact rationals: order 2, knots 0..7, coefficients 1,2,5,10,17; derivative at 7/2 and in the left margin *)
+Definition qz2 (z : Z) : Qc := Q2Qc (inject_Z z).
+Definition ex_tab2 : @table QcA := @mkTable QcA [@mkDim QcA 2%nat 8 5 1 (fun i => qz2 i)] (fun i => qz2 (i * i + 1)).
+Example C02_hypotheses_satisfiable :
+  forall x, In x [Q2Qc (7 # 2); Q2Qc (1 # 2)] ->
+  exists cs, searchcenters ex_tab2 [x] = CFound cs /\
+             ndsplineeval ex_tab2 [x] cs 1 = spline_spec ex_tab2 [x] [1%nat] /\
+             ndsplineeval ex_tab2 [x] cs 1 <> Q2Qc 0.
+Proof.
+  intros x Hx. cbn [In] in Hx.
+  destruct Hx as [<-|[<-|[]]]; eexists; (split; [vm_compute; reflexivity|]); split; try (vm_compute; reflexivity); vm_compute; discriminate.
+Qed.
+
+Print Assumptions C02_bitmask_is_derivative_sum.
+Print Assumptions C02_gradient_components.
+Print Assumptions C02_order0_derivative_zero.
+Print Assumptions C02_bits_of_spec.
+Print Assumptions C02_local_derivative_basis.
+Print Assumptions C02_hypotheses_satisfiable.
